@@ -21,7 +21,7 @@ PROPS = {
                 rule="non-trivial = some connection carried >= 2 PUBLISH packets of different operations; distinct = distinct trace hash"),
     "C07": dict(level=EXPL, quick=30000, thorough=1000000,
                 rule="non-trivial = the broker's in-flight counter reached the announced Receive Maximum on some connection; distinct = distinct trace hash"),
-    "C08": dict(level=EXPL, quick=24000, thorough=800000, components=["pid_alloc"],
+    "C08": dict(level=EXPL, quick=24000, thorough=800000, components=["pid_alloc"], extra_sweeps=[("C08x", 2)],
                 rule="system runs: non-trivial = >= 3 identifier-carrying packets seen; component: packet_id_allocator vs std::set model over seeded alloc/free histories (each history distinct by hash)"),
     "C09": dict(level=EXPL, quick=30000, thorough=1000000,
                 rule="async_disconnect at seeded instants in every client state; non-trivial = async_disconnect was initiated on a running client; distinct = distinct trace hash"),
@@ -35,7 +35,7 @@ PROPS = {
                 rule="subscribe / reconnect / Session Present sequences; non-trivial = a reconnect ended with Session Present 0 after a successful subscribe; distinct = distinct trace hash"),
     "C14": dict(level=EXPL, quick=30000, thorough=1000000,
                 rule="non-trivial = at least one SUBACK/UNSUBACK was delivered; distinct = distinct trace hash"),
-    "C15": dict(level=EXPL, quick=30000, thorough=1000000,
+    "C15": dict(level=EXPL, quick=30000, thorough=1000000, extra_sweeps=[("C08x", 2)],
                 rule="capability sets x boundary requests; non-trivial = broker announced >= 1 limiting capability and >= 1 request was rejected locally or sent on a boundary; distinct = distinct trace hash"),
     "C17": dict(level=EXPL, quick=30000, thorough=1000000,
                 rule="strict independent decoder on every byte the client writes; non-trivial = >= 3 packets from the client; distinct = distinct trace hash"),
